@@ -387,6 +387,7 @@ func (g *gen) script() {
 				if rep[:4] != "wait" {
 					return // fault / unexpected
 				}
+				g.monitorWait(active)
 				if len(s.pending) == 0 {
 					if totalInflight(s) == 0 {
 						return // blocked for good: reported by the C06 monitor
@@ -470,6 +471,32 @@ func (g *gen) monitorAlone(active map[uint]bool) {
 		// discipline's books
 		if avail > 0 && uint(totalInflight(s)+len(s.pending)) < s.H {
 			s.fail("C06 ver=%s zero-share=%v priority %d alone has data (%d queued) but only %d of %d handlers are occupied (%d of them released, the release not yet read)", s.ver, s.zeroShare(), p, avail, totalInflight(s)+len(s.pending), s.H, len(s.pending))
+		}
+	}
+}
+
+// C06, third clause, while the discipline WAITS for a release: with the Fair divider the vacant
+// handlers can be shared out so that every priority below its share gets one as soon as there are
+// at least as many of them as priorities - then nothing stands in the way of the round, and a
+// priority that is alone in having data must not be kept waiting for releases it does not need
+func (g *gen) monitorWait(active map[uint]bool) {
+	s := g.s
+	if !g.k.single || s.ver != "v2" || s.div != "fair" || len(active) != 1 || s.errSeen {
+		return
+	}
+	_, _, _, prios, _ := s.stp.Snapshot()
+	occupied := uint(totalInflight(s) + len(s.pending))
+	if occupied > s.H || s.H-occupied < uint(len(prios)) {
+		return
+	}
+	for c := range active {
+		p, ok := s.chanPri[c]
+		if !ok {
+			return
+		}
+		if avail := len(s.arrived[c]) - len(s.got[c]); avail > 0 {
+			s.fail("C06 ver=%s zero-share=%v priority %d alone has data (%d queued) and %d of %d handlers are vacant - enough to give each of the %d priorities one (Fair) - but the discipline waits for a release",
+				s.ver, s.zeroShare(), p, avail, s.H-occupied, s.H, len(prios))
 		}
 	}
 }
